@@ -79,25 +79,31 @@ theorem digestOf_compress (h m : List UInt32) :
     digestOf (Spec.compress h m) = (Spec.compress h m).flatMap Spec.wordBytes := by
   simp only [Spec.compress]; exact digestOf_eq ..
 
+theorem stateReads_ok (h m : List UInt32) :
+    ((List.range 8).all fun i => Sha256.inb (Spec.compress h m) i) = true := by
+  simp [Spec.compress, Sha256.inb, List.range, List.range.loop]
+
 /-- the tail of `finalize` once the padding loop has stopped at position 56 -/
 theorem finalize_tail (htr : TransformOK) (p q : Sha) (pre tl : List UInt8)
     (hpad : padLoop (bufferPos p + 1) { p with buffer := Sha256.wr p.buffer (bufferPos p) 0x80 } = (56, q))
-    (hq : q.buffer = pre ++ tl) (hpre : pre.length = 56) (htl : tl.length = 8) (hst : q.state.length = 8) :
+    (hq : q.buffer = pre ++ tl) (hpre : pre.length = 56) (htl : tl.length = 8) (hst : q.state.length = 8)
+    (hok : q.ok = true) :
     (finalize p).1 = (Spec.compress q.state (Spec.blockWords (pre ++ lenBytes 8 (p.count <<< 3)))).flatMap Spec.wordBytes
     ∧ Inv [] (finalize p).2 := by
   have hl := lenLoop_append 8 (p.count <<< 3) pre tl (by omega)
   rw [hpre] at hl
   have hd : tl.drop 8 = [] := List.drop_eq_nil_of_le (by omega)
   rw [hd, List.append_nil] at hl
+  have hw := writeByteBlock_eq htr { q with buffer := pre ++ lenBytes 8 (p.count <<< 3) } hst
+    (by simp [hpre, lenBytes_length])
+  simp only [hok] at hw
   unfold finalize
-  simp only [hpad, hq, hl, writeByteBlock]
-  rw [htr _ _ hst (data32_length _), data32_eq]
-  refine ⟨digestOf_compress _ _, inv_reset _ ?_⟩
-  simp [hpre, lenBytes_length]
+  simp only [hpad, hq, hl, hok, hw, stateReads_ok, Bool.and_true]
+  exact ⟨digestOf_compress _ _, inv_reset _ (by simp [hpre, lenBytes_length]) rfl⟩
 
 theorem finalize_spec (htr : TransformOK) (m : List UInt8) (p : Sha) (h : Inv m p) (hlen : m.length < 2 ^ 61) :
     (finalize p).1 = Spec.sha256 m ∧ Inv [] (finalize p).2 := by
-  obtain ⟨full, tail, rest, hm, hfull, hbuf, hsz, hrest, hst, hcnt⟩ := h
+  obtain ⟨full, tail, rest, hm, hfull, hbuf, hsz, hrest, hst, hcnt, hok⟩ := h
   obtain ⟨r, rest', rfl⟩ : ∃ r rest', rest = r :: rest' := by
     cases rest with
     | nil => simp at hrest
@@ -123,7 +129,7 @@ theorem finalize_spec (htr : TransformOK) (m : List UInt8) (p : Sha) (h : Inv m 
       have : tail.length + 1 + (55 - tail.length) = 56 := by omega
       rw [this, padLoop_56]
       simp only [hzf]
-    have := finalize_tail htr p _ _ _ hpad rfl (by simp; omega) (by simp; omega) hst8
+    have := finalize_tail htr p _ _ _ hpad rfl (by simp; omega) (by simp; omega) hst8 hok
     refine ⟨?_, this.2⟩
     rw [this.1, hL, hz]
     rw [hashBlocks_block (by simp [Spec.be64]; omega)]
@@ -144,24 +150,21 @@ theorem finalize_spec (htr : TransformOK) (m : List UInt8) (p : Sha) (h : Inv m 
     have hzf2 := zfill_append 55 [0] B1' (by omega)
     simp only [List.length_cons, List.length_nil, Nat.zero_add] at hzf2
     have hpad : padLoop (bufferPos p + 1) { p with buffer := Sha256.wr p.buffer (bufferPos p) 0x80 } =
-        (56, { p with state := transform p.state (data32 B1), buffer := List.replicate 56 0 ++ B1'.drop 55 }) := by
+        (56, { p with state := Spec.compress p.state (Spec.blockWords B1), buffer := List.replicate 56 0 ++ B1'.drop 55 }) := by
       rw [hset, hcur, padLoop_fill (63 - tail.length) _ _ (by omega) (by omega) (by intros; omega)]
       have : tail.length + 1 + (63 - tail.length) = 64 := by omega
       rw [this, padLoop_64]
-      simp only [hzf, writeByteBlock]
+      simp only [hzf]
+      rw [writeByteBlock_eq htr { p with buffer := B1 } hst8 hB1]
       rw [padLoop_fill 55 1 _ (by omega) (by omega) (by intros; omega), padLoop_56]
       have h56 : (0 : UInt8) :: List.replicate 55 0 = List.replicate 56 0 := rfl
       simp only [List.cons_append, List.nil_append, h56] at hzf2
       simp only [hB1c, wr_cons_zero, hzf2]
-    have hst1 : (transform p.state (data32 B1)).length = 8 := by
-      rw [htr _ _ hst8 (data32_length _)]; exact compress_length _ _
-    have := finalize_tail htr p { p with state := transform p.state (data32 B1), buffer := List.replicate 56 0 ++ B1'.drop 55 }
-      (List.replicate 56 0) (B1'.drop 55) hpad rfl List.length_replicate (by rw [List.length_drop]; omega) hst1
+    have := finalize_tail htr p { p with state := Spec.compress p.state (Spec.blockWords B1), buffer := List.replicate 56 0 ++ B1'.drop 55 }
+      (List.replicate 56 0) (B1'.drop 55) hpad rfl List.length_replicate (by rw [List.length_drop]; omega)
+      (compress_length _ _) hok
     refine ⟨?_, this.2⟩
     rw [this.1, hL, hz]
-    have hT : transform p.state (data32 B1) = Spec.compress p.state (Spec.blockWords B1) := by
-      rw [htr _ _ hst8 (data32_length _), data32_eq]
-    simp only [hT]
     have hsplit : tail ++ [0x80] ++ List.replicate (63 - tail.length + 56) 0 ++ Spec.be64 (8 * m.length) =
         B1 ++ (List.replicate 56 0 ++ Spec.be64 (8 * m.length)) := by
       rw [hB1d, ← List.replicate_append_replicate]; simp only [List.append_assoc]
